@@ -14,7 +14,7 @@ func init() {
 		NotDecided:  "interleaving with concurrent traffic (follows from the pool's exclusivity, C24, and R25d; not separately shown)."}
 	Registry["C27"] = RuleDef{Module: ".", Run: runC27,
 		Technique:   "sibling agreement of the three invalidation sinks (guard rule), unconditional-dispatch rule for pushes, must-pass rules on teardown and on the release of a tracking connection",
-		Explanation: "Decides (R27a) that the store, the option callback and the hook callback each receive nil exactly when the pushed key list is null and otherwise the pushed key list itself, each under the presence test of its own sink only; (R27d) that every push frame the reader meets - top level or embedded in a multi-key reply by Redis 6 - is dispatched through handlePush under no condition on the presence of the built-in cache; (R27b) that teardown calls both callbacks with nil once the connection is lost (shared with C04); (R27c) that releasing a dedicated wire on which an invalidation callback was installed switches tracking off before the wire is pooled again, the presence of the callback being read before the hooks are reset (shared with C25).",
+		Explanation: "Decides (R27a) that the store, the option callback and the hook callback each receive nil exactly when the pushed key list is null and otherwise the pushed key list itself, each under the presence test of its own sink only; (R27d) that every push frame the reader meets - top level or embedded in a multi-key reply by Redis 6 - is dispatched through handlePush under no condition on the presence of the built-in cache; (R27b) that teardown calls both callbacks with nil once the connection is lost (shared with C04); (R27c) that releasing a dedicated wire on which an invalidation callback was installed switches tracking off before the wire is pooled again, the presence of the callback being read before the hooks are reset (shared with C25). Each of the three sinks (store, option callback, hook callback) is served by a call of its own - none is a fallback for another.",
 		NotDecided:  "equality of the delivered keys with what the server sent (value-level); ordering relative to replies."}
 }
 
@@ -349,6 +349,49 @@ func runC27(r *Report) {
 			r.ObSite("R27a", s, "sink-independent-of-other-sinks", !foreign, "a sink is called under the presence test of that sink only (the store, the option callback and the hook callback do not shadow each other)")
 		}
 		r.Anchor("R27a", "invalidation sinks in handlePush (3 sinks, written per arm or once)", n == 6 || n == 3)
+		// each of the three sinks is served on its own: the store, the client-wide option callback and
+		// the connection's hook callback (none is a fallback for another)
+		kinds := map[string]int{}
+		for _, s := range Sites(hp, func(in ssa.Instruction) bool { _, ok := in.(*ssa.Call); return ok }) {
+			c := s.Instr.(*ssa.Call)
+			switch {
+			case CalleeName(c) == "iface:rueidis.CacheStore.Delete":
+				kinds["store"]++
+			case c.Call.StaticCallee() == nil && !c.Call.IsInvoke():
+				// a callback value: which field(s) can it come from?
+				srcs := map[string]bool{}
+				var walk func(v ssa.Value, d int)
+				walk = func(v ssa.Value, d int) {
+					if d > 4 {
+						return
+					}
+					if ph, ok := v.(*ssa.Phi); ok {
+						for _, e := range ph.Edges {
+							walk(e, d+1)
+						}
+						return
+					}
+					dd := DescDeep(v)
+					switch {
+					case strings.HasSuffix(dd, ".hooks.onInvalidations"):
+						srcs["hook"] = true
+					case strings.HasSuffix(dd, ".onInvalidations"):
+						srcs["option"] = true
+					}
+				}
+				walk(c.Call.Value, 0)
+				if len(srcs) == 1 {
+					for k := range srcs {
+						kinds[k]++
+					}
+				} else if len(srcs) > 1 {
+					r.ObSite("R27a", s, "sink-is-one-callback", false, "one call serves either the option callback or the hook callback, so only one of the two is notified")
+				}
+			}
+		}
+		for _, k := range []string{"store", "option", "hook"} {
+			r.Ob("R27a", hp, "sink-served:"+k, hp.Pos(), kinds[k] >= 1, "handlePush notifies the "+k+" sink of an invalidation through a call of its own")
+		}
 	}
 	// R27d
 	if rd := r.FnAnchor("R27d", "rueidis.(*pipe)._backgroundRead"); rd != nil {
